@@ -113,7 +113,7 @@ func (p *para) style(width int) string {
 
 func (p *para) document(widths []int) string {
 	var sb strings.Builder
-	fmt.Fprintf(&sb, `<style>@page{size:30000px 200000px;margin:0} body{margin:0;font:%dpx/%dpx %s} p{margin:0 0 0 7px;padding:0 0 0 3px}</style>`, p.Em, p.LH, p.Font)
+	fmt.Fprintf(&sb, `<style>@font-face{src:url(file://%s/weasyprint.otf);font-family:weasyprint} @page{size:30000px 200000px;margin:0} body{margin:0;font:%dpx/%dpx %s} p{margin:0 0 0 7px;padding:0 0 0 3px}</style>`, render.FontDir, p.Em, p.LH, p.Font)
 	in := p.inner()
 	for _, w := range widths {
 		fmt.Fprintf(&sb, `<p style="%s">%s</p>`, p.style(w), in)
@@ -736,6 +736,9 @@ func itemTags(items []item, p *para, engine string) []string {
 	// patterns of known findings (see known_findings.json)
 	lineStart, openSum := true, 0
 	for i, it := range items {
+		if it.Kind == 'S' && i+1 < len(items) && (items[i+1].Kind == 'O' || items[i+1].Kind == 'C' || items[i+1].Kind == 'A') {
+			t["node-end-space"] = true // a text node ends with a space and something follows it
+		}
 		switch it.Kind {
 		case 'O':
 			if lineStart {
@@ -778,6 +781,10 @@ func itemTags(items []item, p *para, engine string) []string {
 // projects the paragraph; ok=false when nothing is to be compared (a case was
 // written if the implementation failed)
 func (rn *runner) items(p *para, engine, kind string) (items []item, ok bool) {
+	return rn.itemsG(p, engine, kind, p.Em)
+}
+
+func (rn *runner) itemsG(p *para, engine, kind string, glyphW int) (items []item, ok bool) {
 	fc := rn.fc(engine)
 	html0 := p.document([]int{100})
 	doc0, err := render.ParseHTML(html0, true, nil)
@@ -792,7 +799,7 @@ func (rn *runner) items(p *para, engine, kind string) (items []item, ok bool) {
 			perr = "paragraph not found in the box tree"
 			return
 		}
-		items, perr = projectPara(ps[0], p.Em)
+		items, perr = projectPara(ps[0], glyphW)
 	})
 	if out.Status != "ok" {
 		rn.w.Add(vlib.Case{Kind: kind, Coq: "CBad 1", Desc: map[string]interface{}{"html": html0, "panic": out.Msg, "site": out.Site},
@@ -864,6 +871,139 @@ func min(a, b int) int {
 	return b
 }
 
+// MONITOR stream: a real font (weasyprint.otf); only the inequalities are evaluated, with
+// the widths the implementation reports
+func (rn *runner) runMon(p *para, r *vlib.Rng, engine string) {
+	p.Font = "weasyprint"
+	items, ok := rn.itemsG(p, engine, "mon", 0)
+	if !ok {
+		return
+	}
+	set := map[int]bool{0: true}
+	for len(set) < 10 {
+		set[r.Range(1, 40*p.Em)] = true
+	}
+	var widths []int
+	for w := range set {
+		widths = append(widths, w)
+	}
+	sort.Ints(widths)
+	fc := rn.fc(engine)
+	html := p.document(widths)
+	var (
+		pages []*bo.PageBox
+		err   error
+	)
+	out := render.Guard(func() {
+		pages, err = render.Layout(html, nil, false, true, fc)
+	})
+	tags := append(itemTags(items, p, engine), "real-font")
+	if out.Status != "ok" || err != nil || len(pages) != 1 {
+		rn.w.Add(vlib.Case{Kind: "mon", Coq: "CBad 2", Desc: map[string]interface{}{"para": p, "widths": widths, "engine": engine, "html": html, "status": out.Status, "panic": out.Msg, "site": out.Site},
+			Tags: append(tags, "layout-failed", "site="+out.Site), Nontrivial: true})
+		delete(rn.fonts, engine)
+		return
+	}
+	ps := paragraphs(pages[0])
+	if len(ps) != len(widths) {
+		return
+	}
+	for i, w := range widths {
+		ls := observe(ps[i])
+		var ml []string
+		for _, l := range ls {
+			n := 0
+			for _, f := range l.frags {
+				if f.atomic {
+					n++
+				} else {
+					n += len(strings.Fields(f.text))
+				}
+			}
+			ml = append(ml, fmt.Sprintf("ML %d %s %s %s", n, vlib.Q32(l.w), vlib.Q32(l.y), vlib.Q32(l.h)))
+		}
+		rn.w.Add(vlib.Case{
+			Kind: "mon",
+			Coq:  fmt.Sprintf("CMon %s %s %s %s", vlib.Z(w), vlib.Z(p.Indent), coqItems(items), vlib.List(ml)),
+			Desc: map[string]interface{}{
+				"engine": engine, "width": w, "p_style": p.style(w), "font": fmt.Sprintf("%dpx/%dpx %s", p.Em, p.LH, p.Font),
+				"inner_html": p.inner(), "items": coqItems(items), "impl_lines": descLines(ls), "para": p,
+			},
+			Tags:       append(append([]string{}, tags...), fmt.Sprintf("lines=%d", min(len(ls), 4))),
+			Nontrivial: len(ls) >= 2,
+		})
+	}
+}
+
+// text.SplitFirstLine called directly on one text run
+func (rn *runner) runSplit(r *vlib.Rng, engine string) {
+	ws := vlib.Pick(r, []string{"normal", "normal", "pre-line", "nowrap", "pre"})
+	em := vlib.Pick(r, []int{10, 20, 15, 16, 13})
+	font := "Ahem"
+	if r.Chance(1, 4) {
+		font = "weasyprint"
+	}
+	k := r.Range(1, 6)
+	var sb strings.Builder
+	for i := 0; i < k; i++ {
+		if i > 0 {
+			if (ws == "pre-line" || ws == "pre") && r.Chance(1, 5) {
+				sb.WriteString("\n")
+			} else {
+				sb.WriteString(" ")
+			}
+		}
+		sb.WriteString(word(r, vlib.Pick(r, []int{2, 4, 9})))
+	}
+	src := sb.String()
+	doc := fmt.Sprintf(`<style>@font-face{src:url(file://%s/weasyprint.otf);font-family:weasyprint} body{font:%dpx/%dpx %s} p{white-space:%s}</style><p>%s</p>`,
+		render.FontDir, em, em, font, ws, src)
+	fc := rn.fc(engine)
+	h, err := render.ParseHTML(doc, true, nil)
+	if err != nil {
+		return
+	}
+	var tb *bo.TextBox
+	out := render.Guard(func() {
+		root := layout.VerifBoxTree(h, nil, false, fc)
+		render.Walk(root, func(b bo.Box, _ int) {
+			if t, ok := b.(*bo.TextBox); ok && tb == nil {
+				tb = t
+			}
+		})
+	})
+	if out.Status != "ok" || tb == nil {
+		return
+	}
+	var items []item
+	project(tb, ws, em, &items)
+	ctx := layout.NewVerifTextContext(fc)
+	for _, w := range sweep(r, items, em, 0, 8) {
+		var v text.FirstLine
+		out := render.Guard(func() {
+			v = text.SplitFirstLine(tb.Text, tb.Style, ctx, pr.Float(w), false, true)
+		})
+		tags := []string{"engine=" + engine, "ws=" + ws, "font=" + font}
+		if strings.Contains(src, "\n") {
+			tags = append(tags, "has-hard")
+		}
+		desc := map[string]interface{}{"engine": engine, "text": string(tb.Text), "white-space": ws, "font": fmt.Sprintf("%dpx %s", em, font), "maxWidth": w}
+		if out.Status != "ok" {
+			desc["panic"], desc["site"] = out.Msg, out.Site
+			rn.w.Add(vlib.Case{Kind: "split", Coq: "CBad 4", Desc: desc, Tags: append(tags, "split-panic", "site="+out.Site), Nontrivial: true})
+			delete(rn.fonts, engine)
+			return
+		}
+		desc["length"], desc["resumeAt"], desc["width"] = v.Length, v.ResumeAt, v.Width
+		rn.w.Add(vlib.Case{
+			Kind: "split",
+			Coq: fmt.Sprintf("CSplit %s %s %s %s %s %s %s", vlib.Bool(font == "Ahem"), vlib.Z(em), vlib.Z(w), coqItems(items),
+				vlib.Z(v.Length), vlib.Z(v.ResumeAt), vlib.Q32(pr.Fl(v.Width))),
+			Desc: desc, Tags: tags, Nontrivial: v.ResumeAt != -1,
+		})
+	}
+}
+
 // a corpus file holds one paragraph: {"para": …, "widths": […], "engine": "pango"|"gotext"}
 func (rn *runner) runCorpus(path string) {
 	b, err := os.ReadFile(path)
@@ -913,10 +1053,14 @@ func main() {
 			engine = "gotext"
 		}
 		switch k := r.Intn(20); {
-		case k < 16:
+		case k < 13:
 			rn.runPara(genPara(r), r, engine, 16, "para")
-		default:
+		case k < 16:
 			rn.runPara(genBoundary(r), r, engine, 10, "boundary")
+		case k < 18:
+			rn.runMon(genPara(r), r, engine)
+		default:
+			rn.runSplit(r, engine)
 		}
 	}
 }
